@@ -15,7 +15,7 @@ from itertools import combinations
 from hypothesis import strategies as st
 
 from vlib import rng
-from vlib.runner import call, Violation
+from vlib.runner import call, Violation, clone_point
 
 
 # --------------------------------------------------------------------------- templates
@@ -187,6 +187,10 @@ def gcm_case(draw, tier, algos=("fast", "network", "motifs"), max_leaf_stubs=Non
         c["prior"] = draw(st.sampled_from(["same", "reversed", "doubled"]))
     if algo == "motifs":
         c["indices_type"] = draw(st.sampled_from(["list", "list", "tuple", "range"]))
+    if draw(st.integers(0, 5)) == 5:
+        c["callable_objects"] = True
+    if draw(st.integers(0, 7)) == 7:
+        c["reentrant"] = True
     if draw(st.integers(0, 3)) == 0:
         # the caller re-uses its parameter dictionary for something else after the generator was constructed
         c["params_reassigned"] = True
@@ -213,8 +217,28 @@ def build(case, journal):
                        GCMAlgorithmFactory, GCMAlgorithmMain, GCMAlgorithmTypes)
     algo = case["algo"]
 
+    holder = {"g": None, "busy": False}
+
+    class CallableBuilder:
+        """a build callback may be any callable: an object with __call__ (and state of its own), not only a function"""
+        def __init__(self, f):
+            self.f = f
+            self.calls = 0
+
+        def __call__(self, vertices):
+            self.calls += 1
+            return self.f(vertices)
+
     def wrap(j, fn):
         def cb(vertices):
+            if case.get("reentrant") and j == 0 and holder["g"] is not None and not holder["busy"]:
+                # the callback itself asks the same generator object for another (empty) graph before it answers
+                holder["busy"] = True
+                try:
+                    holder["g"].random_clustered_graph([tuple([0] * ncols(case))])
+                finally:
+                    holder["busy"] = False
+                    del journal[len(journal):]
             # the library's own list object is passed through (a callback may legitimately return it); the
             # journal keeps snapshots taken at call time, so later reuse of that object by the library shows
             es = fn(vertices)
@@ -224,6 +248,10 @@ def build(case, journal):
                 snap = copy.deepcopy(es)
             journal.append((j, list(vertices), snap))
             return es
+        if case.get("callable_objects") and case.get("_clone") in (None, "copy"):
+            b = CallableBuilder(cb)
+            _BUILDERS.setdefault(id(journal), []).append((j, b))
+            return b
         return cb
 
     params = {}
@@ -257,6 +285,9 @@ def build(case, journal):
     else:
         params[GN.GCM_TYPE] = typ if path == "main_enum" else typ.value
         g = call("construct-main", GCMAlgorithmMain.load_gcm_algorithm, params)
+    # the caller may go on with a copy of the generator object (plain-function callbacks are shared by copies)
+    g = clone_point(g, case)
+    holder["g"] = g
     if case.get("params_reassigned"):
         # the generator is configured at construction: what the caller later stores under the same keys of its own
         # dictionary (here: other sizes, other callbacks, other names) configures nothing
@@ -270,6 +301,9 @@ def build(case, journal):
         if algo == "motifs":
             params[GN.MOTIF_INDICES] = [[0]] * n
     return g, cls
+
+
+_BUILDERS = {}  # id(journal) -> [(motif index, CallableBuilder)] of the generator under construction
 
 
 def rng_ctx(r, budget=None, record_bounds=False):
@@ -294,7 +328,17 @@ def generate(case):
             pj = {"same": list(jds), "reversed": list(reversed(jds)), "doubled": list(jds) + list(jds)}[prior]
             call("generate-earlier-graph", g.random_clustered_graph, pj)
             del journal[:]
+        builders = _BUILDERS.pop(id(journal), [])
+        before = [b.calls for _, b in builders]
         res = call("generate", g.random_clustered_graph, arg)
+        # the callable objects that were configured are the ones that are called (not copies of them)
+        for (j, b), c0 in zip(builders, before):
+            used = sum(1 for jj, _, _ in journal if jj == j)
+            if b.calls - c0 != used:
+                raise Violation("callback-object-replaced", f"build callback object of motif {j} was called {b.calls - c0} times, "
+                                                            f"{used} motif instances of that kind were built (by a copy of the object)")
+    # ... and the result may be copied or pickled before it is looked at (returned from a worker process, cached)
+    res = clone_point(res, case)
     if case.get("np_dtype"):
         if [tuple(int(x) for x in r) for r in arg.tolist()] != pristine:
             jds = [("modified",)]
@@ -324,6 +368,10 @@ def classes_of(case):
         cl.add("generator_reused")
     if case.get("params_reassigned"):
         cl.add("params_dict_reassigned_after_construction")
+    if case.get("callable_objects"):
+        cl.add("callbacks_are_callable_objects")
+    if case.get("reentrant"):
+        cl.add("reentrant_callback")
     if case.get("indices_type", "list") != "list":
         cl.add("motif_indices_as_" + case["indices_type"])
     cl.add("algo_" + case["algo"])
